@@ -917,6 +917,12 @@ def classify(orig_sec, ib_or_err, var_sec):
     return 'structure:sec-block-raw'
 
 
+EID_NORM_SIG = {'C03': 'C03:eid-normalised-alteration-verifies', 'C16': 'C16:eid-normalised-alteration-decrypts'}
+EID_NORM_WHAT = ('An alteration of covered dtn EID text that the codec normalises away (trailing \'/\' of a bare authority dropped, '
+                 'TAB / CR / LF inserted) is authenticated as the original: the external AAD is computed from the decoded, '
+                 're-encoded EID (urlsplit), not from the received octets (D20 family)')
+
+
 def known_eid_norm(ssp):
     """ The re-encoding normalisations of dtn EID text known to exist in the implementation (urlsplit): TAB, CR, LF are
     removed; a bare authority gets a '/' path. Everything else is expected to be re-encoded literally. """
@@ -1036,9 +1042,9 @@ def run_variants(chk, prop, rcv, data, variants, label, replay_base, capture=Tru
                     chk.violation('%s:undecodable-security-block-delivered' % prop,
                                   'the data of a type 11/12 block was altered so that it no longer decodes as a security block: delivered', replay)
                 elif _known_eid_normalisation(ib0, ib):
-                    # pre-existing, reported: EID text which the codec maps back to the original (tab / CR / LF removed,
-                    # '/' appended to a bare authority) is authenticated as the original
-                    chk.count('%s:known-eid-normalisation-delivered(pre-existing,C08)' % label)
+                    # known finding: EID text which the codec maps back to the original (tab / CR / LF removed, '/' appended
+                    # to a bare authority) is authenticated as the original
+                    chk.violation(EID_NORM_SIG[prop], EID_NORM_WHAT, replay)
                 else:
                     chk.violation('%s:covered-alteration-delivered' % prop,
                                   'a bundle altered inside the authenticated scope was delivered', replay)
@@ -2119,8 +2125,11 @@ def eid_normalisation_monitor(chk, prop, keyhex, conf, reps):
                               altered_text=alt.decode('latin1'), data=v.hex(), original=good.hex(), expected='must-fail', observed=out.summary())
                 if out.delivered:
                     if known_eid_norm(alt) == text:
-                        chk.count('eid-text:normalised-away-and-delivered(pre-existing,reported):%s' % kind)
-                        chk.cov.setdefault('pre_existing_eid_normalisation_samples', {}).setdefault(kind, dict(replay, keys=keyhex))
+                        chk.count('eid-text:normalised-alteration-delivered:%s' % kind)
+                        chk.cov.setdefault('eid_normalisation_samples', {}).setdefault(kind, dict(replay, keys=keyhex))
+                        chk.violation(EID_NORM_SIG[prop],
+                                      'text of the %s EID altered (%s: %r -> %r) and delivered. ' % (where, kind, text.decode('latin1'), alt.decode('latin1'))
+                                      + EID_NORM_WHAT, replay)
                     else:
                         chk.violation('%s:covered-alteration-delivered' % prop,
                                       'text of the %s EID altered (%s: %r -> %r), re-encoded to the original by the codec: delivered'
